@@ -176,6 +176,31 @@ func c17Open(a *An, kf *kqFacts) {
 		a.R.fail("anchor unresolved: open(2) on the add path")
 		return
 	}
+	liftedOf := map[*Visit]*Visit{} // open(2) inside a wrapper -> the wrapper's call site
+	// an open(2) wrapper (a function whose only effect is the open, possibly retried, and whose every return hands back
+	// the descriptor and the error of an open of its own) is transparent: its call site is the open site
+	{
+		var lifted []*Visit
+		dup := map[*Visit]bool{}
+		for _, O := range opens {
+			raw := O
+			for depth := 0; depth < 3; depth++ {
+				up := liftOpenWrapper(a, w, O)
+				if up == nil {
+					break
+				}
+				O = up
+			}
+			if O != raw {
+				liftedOf[raw] = O
+			}
+			if !dup[O] {
+				dup[O] = true
+				lifted = append(lifted, O)
+			}
+		}
+		opens = lifted
+	}
 	seen := map[string]bool{}
 	for _, O := range opens {
 		call := O.Instr.(*ssa.Call)
@@ -296,6 +321,11 @@ func c17Open(a *An, kf *kqFacts) {
 								for _, O2 := range opens {
 									if ex.Tuple == ssa.Value(O2.Instr.(*ssa.Call)) && e.Ctx == O2.Ctx && sameFdCell(w, O2, fdPath) {
 										isOpenErr = true
+									}
+								}
+								for raw, up := range liftedOf {
+									if up == O && ex.Tuple == ssa.Value(raw.Instr.(*ssa.Call)) && e.Ctx == raw.Ctx {
+										isOpenErr = true // the error of the open inside the wrapper whose call site this is
 									}
 								}
 							}
@@ -1020,4 +1050,82 @@ func c17WatchList(a *An, kf *kqFacts) {
 	}
 	a.R.ob("C17.4", "user-table:insert", "the user-watch table is inserted only by AddWith, after a successful add, under the cleaned path", a.P.pos(wl.Pos()), insOK && len(ins) >= 1, fmtList(uniq(ins)))
 	a.R.ob("C17.4", "user-table:delete", "the user-watch table is deleted under the same normalisation (filepath.Clean), so Remove finds what Add recorded", a.P.pos(wl.Pos()), delOK && len(del) >= 1, fmtList(uniq(del)))
+}
+
+// liftOpenWrapper: O is a call (of open(2), or of a wrapper already lifted) inside a function that does nothing but
+// open and return (descriptor, error) of such calls; the result is the visit of that function's call site in the parent
+// context, or nil when the function is not such a wrapper.
+func liftOpenWrapper(a *An, w *Walker, O *Visit) *Visit {
+	frame := O.Ctx
+	if frame == nil || frame.Parent == nil {
+		return nil
+	}
+	site, ok := frame.Site.(*ssa.Call)
+	if !ok {
+		return nil
+	}
+	fn := O.Instr.Parent()
+	res := fn.Signature.Results()
+	if res.Len() != 2 || !types.Identical(res.At(0).Type(), O.Instr.(*ssa.Call).Call.Signature().Results().At(0).Type()) {
+		return nil
+	}
+	var openCalls []*ssa.Call
+	for _, b := range fn.Blocks {
+		for _, in := range b.Instrs {
+			switch x := in.(type) {
+			case *ssa.Store, *ssa.MapUpdate, *ssa.Send, *ssa.Go, *ssa.Defer:
+				return nil
+			case *ssa.Call:
+				cal := x.Call.StaticCallee()
+				if cal == nil || a.P.inMain(cal) {
+					if x != O.Instr {
+						return nil
+					}
+				}
+				if x == O.Instr || (cal != nil && fullName(cal) == "golang.org/x/sys/unix.Open") {
+					openCalls = append(openCalls, x)
+				}
+			}
+		}
+	}
+	isOpenRes := func(v ssa.Value, idx int) bool {
+		srcs := valueEdges(frame, v, dnfTrue())
+		if len(srcs) == 0 {
+			return false
+		}
+		for _, e := range srcs {
+			ex, ok := e.V.(*ssa.Extract)
+			if !ok || ex.Index != idx || e.Ctx != frame {
+				return false
+			}
+			found := false
+			for _, oc := range openCalls {
+				if ex.Tuple == ssa.Value(oc) {
+					found = true
+				}
+			}
+			if !found {
+				return false
+			}
+		}
+		return true
+	}
+	nret := 0
+	for _, b := range fn.Blocks {
+		if r, ok := b.Instrs[len(b.Instrs)-1].(*ssa.Return); ok {
+			nret++
+			if len(r.Results) != 2 || !isOpenRes(r.Results[0], 0) || !isOpenRes(r.Results[1], 1) {
+				return nil
+			}
+		}
+	}
+	if nret == 0 {
+		return nil
+	}
+	for _, v := range w.Visits {
+		if v.Instr == ssa.Instruction(site) && v.Ctx == frame.Parent {
+			return v
+		}
+	}
+	return nil
 }
